@@ -10,6 +10,18 @@ namespace Dok
 open Spec
 variable {α : Type}
 
+/-! ### the refinement relation and the hypotheses of the property theorems -/
+
+/-- **Agrees.**  The outcome of an assignment in the model (`r` = array afterwards and exception, if
+any) agrees with NumPy's outcome `s` on the dense array of the state `d` before it: if NumPy
+accepts, the model raises nothing, every index tuple reads NumPy's value, the state is canonical
+(distinct in-range keys, no stored fill value) and shape and fill value are unchanged; if NumPy
+raises, the model raises an error of the same class and the array is unchanged. -/
+def Agrees (d : DOK α) (r : DOK α × Option Err) (s : Except Err (Dense α)) : Prop :=
+  match s with
+  | .ok a' => r.2 = none ∧ (∀ k, get r.1 k = a' k) ∧ Canon r.1 ∧ r.1.shape = d.shape ∧ r.1.fill = d.fill
+  | .error e => r = (d, some e)
+
 theorem canon_of_inv {d : DOK α} {es : List (DKey × α)} (hi : Inv d.fill es)
     (hb : ∀ k ∈ keysOf es, InBI k d.shape) : Canon { d with entries := es } := by
   refine ⟨hi.1, fun e he => ⟨hb e.1 (List.mem_map.mpr ⟨e, he, rfl⟩), hi.2 e he⟩⟩
@@ -121,132 +133,229 @@ theorem assignAll_of_not_mem (a : Dense α) (ws : List (DKey × α)) (k : DKey) 
     rw [ih _ h.2]
     simp [h.1]
 
-theorem normIdx_of_inRange {i : Int} {d : Nat} (h0 : 0 ≤ i) (h1 : i < d) : normIdx i d = some i := by
-  have h2 : ¬ i < 0 := by omega
-  have h3 : -(d : Int) ≤ i := by omega
-  simp [normIdx, h1, h2, h3]
+theorem getD_map_of_lt {β γ : Type} (f : β → γ) (l : List β) (j : Nat) (h : j < l.length) (d0 : γ) (d1 : β) :
+    (l.map f).getD j d0 = f (l.getD j d1) := by
+  simp [List.getD_eq_getElem?_getD, List.getElem?_map, List.getElem?_eq_getElem h]
 
-/-- the `j`-th listed key, when every entry is inside its axis, is its own normal form and lies in the shape -/
-theorem normKey_zip : ∀ (idxs : List (List Int)) (shape : List Nat) (j : Nat),
-    entriesInRange idxs shape = true → (∀ l ∈ idxs, j < l.length) →
-    normKey (idxs.map fun l => l.getD j 0) shape = some (idxs.map fun l => l.getD j 0) ∧
-    InBI (idxs.map fun l => l.getD j 0) shape := by
+theorem getD_mem {β : Type} (l : List β) (j : Nat) (h : j < l.length) (d0 : β) : l.getD j d0 ∈ l := by
+  rw [List.getD_eq_getElem?_getD, List.getElem?_eq_getElem h]
+  simp
+
+theorem normList_ok {l l' : List Int} {d : Nat} (h : normList l d = .ok l') :
+    (∀ i ∈ l, -(d : Int) ≤ i ∧ i < d) ∧ l' = l.map (fun (i : Int) => if i < 0 then i + (d : Int) else i) := by
+  unfold normList at h
+  split at h
+  · rename_i hall
+    simp only [List.all_eq_true, Bool.and_eq_true, decide_eq_true_eq] at hall
+    simp only [Except.ok.injEq] at h
+    exact ⟨hall, h.symm⟩
+  · simp at h
+
+theorem normList_error {l : List Int} {d : Nat} {e : Err} (h : normList l d = .error e) :
+    e = .index ∧ ∃ i ∈ l, ¬ (-(d : Int) ≤ i ∧ i < d) := by
+  unfold normList at h
+  split at h
+  · simp at h
+  · rename_i hall
+    simp only [Except.error.injEq] at h
+    refine ⟨h.symm, ?_⟩
+    apply Classical.byContradiction
+    intro hno
+    apply hall
+    simp only [List.all_eq_true, Bool.and_eq_true, decide_eq_true_eq]
+    intro i hi
+    apply Classical.byContradiction
+    intro hni
+    exact hno ⟨i, hi, hni⟩
+
+/-- the `j`-th listed key, when `normalize_index` accepts the lists: NumPy's wrapped index tuple, inside the shape -/
+theorem normKey_zip_ok : ∀ (idxs : List (List Int)) (shape : List Nat) (idxs' : List (List Int)) (j : Nat),
+    normLists idxs shape = .ok idxs' → (∀ l ∈ idxs, j < l.length) →
+    normKey (idxs.map fun l => l.getD j 0) shape = some (idxs'.map fun l => l.getD j 0) ∧
+    InBI (idxs'.map fun l => l.getD j 0) shape := by
   intro idxs
   induction idxs with
   | nil =>
-    intro shape j h _
+    intro shape idxs' j h _
     cases shape with
-    | nil => exact ⟨rfl, trivial⟩
-    | cons d ds => simp [entriesInRange] at h
+    | nil => simp only [normLists, Except.ok.injEq] at h; subst h; exact ⟨rfl, trivial⟩
+    | cons d ds => simp [normLists] at h
   | cons l ls ih =>
-    intro shape j h hj
+    intro shape idxs' j h hj
     cases shape with
-    | nil => simp [entriesInRange] at h
+    | nil => simp [normLists] at h
     | cons d ds =>
-      simp only [entriesInRange, Bool.and_eq_true, List.all_eq_true, decide_eq_true_eq] at h
-      have hjl : j < l.length := hj l List.mem_cons_self
-      have hmem : l.getD j 0 ∈ l := by
-        rw [List.getD_eq_getElem?_getD, List.getElem?_eq_getElem hjl]
-        simp
-      have hr := h.1 _ hmem
-      have := ih ds j h.2 (fun l' hl' => hj l' (List.mem_cons_of_mem _ hl'))
-      simp only [List.map_cons, normKey, normIdx_of_inRange hr.1 hr.2, this.1]
-      exact ⟨trivial, ⟨hr, this.2⟩⟩
+      simp only [normLists] at h
+      cases h1 : normList l d with
+      | error e => simp [h1] at h
+      | ok x =>
+        cases h2 : normLists ls ds with
+        | error e => simp [h1, h2] at h
+        | ok xs =>
+          simp only [h1, h2, Except.ok.injEq] at h
+          subst h
+          obtain ⟨hr, hx⟩ := normList_ok h1
+          have hjl : j < l.length := hj l List.mem_cons_self
+          have hin := hr _ (getD_mem l j hjl 0)
+          have hxj : x.getD j 0 = (if l.getD j 0 < 0 then l.getD j 0 + d else l.getD j 0) := by
+            rw [hx]; exact getD_map_of_lt _ l j hjl 0 0
+          have := ih ds xs j h2 (fun l' hl' => hj l' (List.mem_cons_of_mem _ hl'))
+          have hni : normIdx (l.getD j 0) d = some (x.getD j 0) := by
+            rw [hxj]; unfold normIdx; rw [if_pos hin]
+          simp only [List.map_cons, normKey, hni, this.1]
+          refine ⟨trivial, ⟨?_, this.2⟩⟩
+          rw [hxj]
+          split <;> omega
 
-theorem normKeys_zip (idxs : List (List Int)) (shape : List Nat) (n : Nat)
-    (h : entriesInRange idxs shape = true) (hl : ∀ l ∈ idxs, l.length = n) :
-    normKeys shape (zipKeys idxs n) = some (zipKeys idxs n) ∧ ∀ k ∈ zipKeys idxs n, InBI k shape := by
-  unfold zipKeys
-  have key : ∀ (js : List Nat), (∀ j ∈ js, j < n) →
-      normKeys shape (js.map fun j => idxs.map fun l => l.getD j 0) = some (js.map fun j => idxs.map fun l => l.getD j 0)
-      ∧ ∀ k ∈ (js.map fun j => idxs.map fun l => l.getD j 0), InBI k shape := by
-    intro js
-    induction js with
-    | nil => intro _; exact ⟨rfl, fun k hk => by simp at hk⟩
-    | cons j js ih =>
-      intro hjs
-      have hj : j < n := hjs j List.mem_cons_self
-      have h1 := normKey_zip idxs shape j h (fun l hlm => by rw [hl l hlm]; exact hj)
-      have h2 := ih (fun j' hj' => hjs j' (List.mem_cons_of_mem _ hj'))
-      simp only [List.map_cons, normKeys, h1.1, h2.1]
-      refine ⟨trivial, fun k hk => ?_⟩
-      rcases List.mem_cons.mp hk with hk | hk
-      · rw [hk]; exact h1.2
-      · exact h2.2 k hk
-  exact key (List.range n) (fun j hj => List.mem_range.mp hj)
+/-- when `normalize_index` rejects the lists (IndexError), some listed key is out of range for NumPy too -/
+theorem normLists_error : ∀ (idxs : List (List Int)) (shape : List Nat) (e : Err) (n : Nat),
+    idxs.length = shape.length → (∀ l ∈ idxs, l.length = n) → normLists idxs shape = .error e →
+    e = .index ∧ ∃ j, j < n ∧ normKey (idxs.map fun l => l.getD j 0) shape = none := by
+  intro idxs
+  induction idxs with
+  | nil =>
+    intro shape e n hlen _ h
+    cases shape with
+    | nil => simp [normLists] at h
+    | cons d ds => simp at hlen
+  | cons l ls ih =>
+    intro shape e n hlen hl h
+    cases shape with
+    | nil => simp at hlen
+    | cons d ds =>
+      simp only [normLists] at h
+      cases h1 : normList l d with
+      | error e1 =>
+        simp only [h1, Except.error.injEq] at h
+        subst h
+        obtain ⟨he, i, hi, hn⟩ := normList_error h1
+        obtain ⟨j, hj, hji⟩ := List.getElem_of_mem hi
+        have hln := hl l List.mem_cons_self
+        refine ⟨he, j, by omega, ?_⟩
+        have : l.getD j 0 = i := by
+          rw [List.getD_eq_getElem?_getD, List.getElem?_eq_getElem hj, hji]; rfl
+        simp only [List.map_cons, normKey, this, normIdx, hn, if_false]
+      | ok x =>
+        cases h2 : normLists ls ds with
+        | ok xs => simp [h1, h2] at h
+        | error e2 =>
+          simp only [h1, h2, Except.error.injEq] at h
+          subst h
+          obtain ⟨he, j, hj, hk⟩ := ih ds e2 n (by simpa using hlen)
+            (fun l' hl' => hl l' (List.mem_cons_of_mem _ hl')) h2
+          refine ⟨he, j, hj, ?_⟩
+          simp only [List.map_cons, normKey, hk]
+          cases normIdx (l.getD j 0) d <;> rfl
 
-/-- **assignment through one integer list per axis** inside the grammar and outside the known regions:
-NumPy accepts it, the model raises nothing, every element afterwards reads what NumPy's array
-holds, and the state is canonical again. -/
+theorem normKeys_none (shape : List Nat) (f : Nat → DKey) : ∀ (js : List Nat) (j : Nat), j ∈ js →
+    normKey (f j) shape = none → normKeys shape (js.map f) = none := by
+  intro js
+  induction js with
+  | nil => intro j hj; simp at hj
+  | cons a as ih =>
+    intro j hj hn
+    simp only [List.map_cons, normKeys]
+    rcases List.mem_cons.mp hj with h | h
+    · subst h
+      rw [hn]
+    · rw [ih j h hn]
+      cases normKey (f a) shape <;> rfl
+
+theorem normKeys_ok (shape : List Nat) (f g : Nat → DKey) : ∀ (js : List Nat),
+    (∀ j ∈ js, normKey (f j) shape = some (g j)) → normKeys shape (js.map f) = some (js.map g) := by
+  intro js
+  induction js with
+  | nil => intro _; rfl
+  | cons a as ih =>
+    intro h
+    simp only [List.map_cons, normKeys, h a List.mem_cons_self,
+      ih (fun j hj => h j (List.mem_cons_of_mem _ hj))]
+
+/-- the value rule of `_fancy_setitem` is NumPy's for `n` listed elements: a scalar, `n` values, or one value -/
+theorem fancyVals_of_listVals {v : Val α} {n : Nat} {xs : List α} (hflat : v.flat.length = prod v.shape)
+    (h : listVals v n = .ok xs) : fancyVals v n = .ok xs := by
+  unfold listVals at h
+  unfold fancyVals
+  cases hs : v.shape with
+  | nil =>
+    rw [hs] at h
+    cases hf : v.flat with
+    | nil => rw [hf] at h; simp at h
+    | cons x t => rw [hf] at h; simpa using h
+  | cons m ms =>
+    cases ms with
+    | cons m2 ms2 => rw [hs] at h; simp at h
+    | nil =>
+      rw [hs] at h hflat
+      simp only [prod, Nat.mul_one] at hflat
+      cases hf : v.flat with
+      | nil =>
+        rw [hf] at h hflat
+        simp only [List.length_nil] at hflat
+        simp only at h
+        split at h
+        · rename_i hh
+          simp only [Except.ok.injEq] at h
+          have hn1 : ¬ n = 1 := by omega
+          have hmn : m = n := hh.1
+          simp only [hmn, hn1, if_false, if_true, h]
+        · simp at h
+      | cons x t =>
+        rw [hf] at h hflat
+        simp only at h
+        by_cases hm1 : m = 1
+        · have ht : t = [] := by
+            have : (x :: t).length = 1 := by rw [hflat, hm1]
+            simpa using this
+          subst ht
+          simp only [hm1, if_true]
+          split at h
+          · rename_i hh
+            simp only [Except.ok.injEq] at h
+            rw [← h, ← hh.1, hm1]
+            rfl
+          · simpa using h
+        · simp only [hm1, if_false] at h ⊢
+          split at h
+          · rename_i hh
+            simpa [hh.1] using h
+          · simp at h
+
+/-- **the tail of `_fancy_setitem`** (value rule, then one store per listed key) against sequential
+element assignment on the dense array -/
+theorem fancyStore_refines [DecidableEq α] (d : DOK α) (keys : List DKey) (v : Val α) (xs : List α) (hc : Canon d)
+    (hv : fancyVals v keys.length = .ok xs) (hin : ∀ k ∈ keys, InBI k d.shape) :
+    Agrees d (fancyStore d keys v) (.ok (assignAll (get d) (keys.zip xs))) := by
+  simp only [Agrees, fancyStore, hv]
+  refine ⟨trivial, fun k => alookup_storeAll d.fill _ d.entries k, ?_, trivial, trivial⟩
+  have hinv : Inv d.fill (storeAll d.fill d.entries (keys.zip xs)) := storeAll_inv _ (canon_inv hc)
+  apply canon_of_inv (d := d) hinv
+  intro k hkm
+  have hne' := (mem_keys_iff hinv k).mp hkm
+  rw [alookup_storeAll] at hne'
+  by_cases hmem : k ∈ (keys.zip xs).map (·.1)
+  · obtain ⟨w, hw, hwk⟩ := List.mem_map.mp hmem
+    have := (List.of_mem_zip (a := w.1) (b := w.2) hw).1
+    rw [← hwk]
+    exact hin _ this
+  · rw [assignAll_of_not_mem _ _ _ hmem] at hne'
+    exact inb_of_mem_keys hc ((mem_keys_iff (canon_inv hc) k).mpr hne')
+
+/-- **assignment through one integer list per axis**, the whole grammar: entries anywhere in
+`[-dim, dim)` (negative ones count from the end), repeated keys (the last value wins), empty lists,
+scalar / `n`-element / one-element values — the model agrees with NumPy, and raises IndexError without
+changing anything exactly when NumPy does (an entry outside `[-dim, dim)`). -/
 theorem setFancy_refines [DecidableEq α] (d : DOK α) (idxs : List (List Int)) (v : Val α) (hc : Canon d)
-    (hwf : WFOp d.shape (.fancy idxs v) = true) (hex : Excluded d.shape (.fancy idxs v) = false) :
-    ∃ a', dSetFancy d.shape (get d) idxs v = .ok a' ∧
-      (setFancy d idxs v).2 = none ∧ (∀ k, get (setFancy d idxs v).1 k = a' k) ∧
-      Canon (setFancy d idxs v).1 ∧ (setFancy d idxs v).1.shape = d.shape ∧
-      (setFancy d idxs v).1.fill = d.fill := by
-  simp only [WFOp, valueFits, Bool.and_eq_true, beq_iff_eq, List.all_eq_true] at hwf
-  obtain ⟨hfits, ⟨hlen, hall⟩, hflat⟩ := hwf
-  simp only [Excluded, Excluded_fancyRawIndex, Excluded_fancyEmpty, Excluded_fancyBcast1,
-    Bool.or_eq_false_iff, Bool.not_eq_false', Bool.and_eq_false_iff] at hex
-  obtain ⟨⟨hrange, hne⟩, hb1⟩ := hex
+    (hwf : WFOp d.shape (.fancy idxs v) = true) :
+    Agrees d (setFancy d idxs v) (dSetFancy d.shape (get d) idxs v) := by
+  simp only [WFOp, valueFits, Bool.and_eq_true, beq_iff_eq, List.all_eq_true, Bool.not_eq_true',
+    List.isEmpty_eq_false_iff] at hwf
+  obtain ⟨hfits, ⟨⟨hne, hlen⟩, hall⟩, hflat⟩ := hwf
   cases idxs with
-  | nil => simp at hne
+  | nil => exact absurd rfl hne
   | cons l ls =>
-    simp only [List.headD_cons] at hfits hall hne hb1
-    have hn0 : l.length ≠ 0 := by
-      intro h0
-      have : l = [] := List.eq_nil_of_length_eq_zero h0
-      rw [this] at hne
-      simp at hne
+    simp only [List.headD_cons] at hfits hall
     have hl : ∀ m ∈ l :: ls, m.length = l.length := hall
-    obtain ⟨hnk, hinb⟩ := normKeys_zip (l :: ls) d.shape l.length hrange hl
-    -- the values
-    have hvals : ∃ xs, listVals v l.length = .ok xs ∧ fancyVals v l.length = .ok xs := by
-      cases hlv : listVals v l.length with
-      | error e => rw [hlv] at hfits; simp [Except.toBool] at hfits
-      | ok xs =>
-        refine ⟨xs, rfl, ?_⟩
-        unfold listVals at hlv
-        unfold fancyVals
-        cases hs : v.shape with
-        | nil =>
-          rw [hs] at hlv
-          cases hf : v.flat with
-          | nil => rw [hf] at hlv; simp at hlv
-          | cons x t =>
-            rw [hf] at hlv
-            simp only [Except.ok.injEq] at hlv
-            simp [hlv]
-        | cons m ms =>
-          cases ms with
-          | cons m2 ms2 => rw [hs] at hlv; simp at hlv
-          | nil =>
-            rw [hs] at hlv hflat hb1
-            simp only [prod, Nat.mul_one] at hflat
-            cases hf : v.flat with
-            | nil =>
-              rw [hf] at hlv
-              simp only at hlv
-              split at hlv
-              · rename_i hh; exact absurd hh.2 hn0
-              · simp at hlv
-            | cons x t =>
-              rw [hf] at hlv hflat
-              simp only at hlv
-              by_cases hm : m = l.length
-              · have hlen' : (x :: t).length = l.length := by rw [hflat, hm]
-                simp only [hm, hlen', and_self, if_true, Except.ok.injEq] at hlv
-                simp [hm, hlv]
-              · exfalso
-                simp only [hm, false_and, if_false] at hlv
-                split at hlv
-                · rename_i h1
-                  rcases hb1 with hb | hb
-                  · simp [h1] at hb
-                  · simp only [bne_eq_false_iff_eq] at hb
-                    exact hm (by rw [h1, hb])
-                · simp at hlv
-    obtain ⟨xs, hlv, hmodel⟩ := hvals
     have hcheck : fancyCheck d.shape (l :: ls) = .ok l.length := by
       have hany : (l :: ls).any (fun m => decide (m.length ≠ l.length)) = false := by
         rw [List.any_eq_false]
@@ -255,25 +364,60 @@ theorem setFancy_refines [DecidableEq α] (d : DOK α) (idxs : List (List Int)) 
       unfold fancyCheck
       rw [if_neg (fun h => h hlen)]
       simp only [hany, Bool.false_eq_true, if_false]
-    refine ⟨assignAll (get d) ((zipKeys (l :: ls) l.length).zip xs), ?_, ?_, ?_, ?_, ?_, ?_⟩
-    · simp only [dSetFancy, List.headD_cons, hnk, hlv]
-    all_goals simp only [setFancy, hcheck, hn0, if_false, hmodel]
-    · intro k
-      simp only [get]
-      exact alookup_storeAll d.fill _ d.entries k
-    · have hinv : Inv d.fill (storeAll d.fill d.entries ((zipKeys (l :: ls) l.length).zip xs)) :=
-        storeAll_inv _ (canon_inv hc)
-      apply canon_of_inv (d := d) hinv
-      intro k hkm
-      have hne' := (mem_keys_iff hinv k).mp hkm
-      rw [alookup_storeAll] at hne'
-      by_cases hmem : k ∈ ((zipKeys (l :: ls) l.length).zip xs).map (·.1)
-      · obtain ⟨w, hw, hwk⟩ := List.mem_map.mp hmem
-        have := (List.of_mem_zip (a := w.1) (b := w.2) hw).1
-        rw [← hwk]
-        exact hinb _ this
-      · rw [assignAll_of_not_mem _ _ _ hmem] at hne'
-        exact inb_of_mem_keys hc ((mem_keys_iff (canon_inv hc) k).mpr hne')
+    obtain ⟨xs, hlv⟩ : ∃ xs, listVals v l.length = .ok xs := by
+      cases h : listVals v l.length with
+      | error e => rw [h] at hfits; simp [Except.toBool] at hfits
+      | ok xs => exact ⟨xs, rfl⟩
+    simp only [setFancy, hcheck, dSetFancy, List.headD_cons]
+    cases hn : normLists (l :: ls) d.shape with
+    | error e =>
+      obtain ⟨he, j, hj, hk⟩ := normLists_error (l :: ls) d.shape e l.length hlen hl hn
+      subst he
+      have : normKeys d.shape (zipKeys (l :: ls) l.length) = none :=
+        normKeys_none d.shape _ (List.range l.length) j (List.mem_range.mpr hj) hk
+      simp only [this, Agrees]
+    | ok idxs' =>
+      have hkeys : ∀ j ∈ List.range l.length,
+          normKey ((l :: ls).map fun m => m.getD j 0) d.shape = some (idxs'.map fun m => m.getD j 0) := by
+        intro j hj
+        have hj' := List.mem_range.mp hj
+        exact (normKey_zip_ok (l :: ls) d.shape idxs' j hn (fun m hm => by rw [hl m hm]; exact hj')).1
+      have hnk : normKeys d.shape (zipKeys (l :: ls) l.length) = some (zipKeys idxs' l.length) :=
+        normKeys_ok d.shape _ _ (List.range l.length) hkeys
+      simp only [hnk, hlv]
+      have hlenk : (zipKeys idxs' l.length).length = l.length := by simp [zipKeys]
+      apply fancyStore_refines d _ v xs hc (by rw [hlenk]; exact fancyVals_of_listVals hflat hlv)
+      intro k hk
+      obtain ⟨j, hj, rfl⟩ := List.mem_map.mp hk
+      have hj' := List.mem_range.mp hj
+      exact (normKey_zip_ok (l :: ls) d.shape idxs' j hn (fun m hm => by rw [hl m hm]; exact hj')).2
+
+theorem mem_maskKeys {shape : List Nat} {m : List Bool} {k : DKey} (h : k ∈ maskKeys shape m) : InBI k shape := by
+  unfold maskKeys at h
+  obtain ⟨kb, hkb, hsome⟩ := List.mem_filterMap.mp h
+  have hk : kb.1 ∈ allKeys shape := (List.of_mem_zip (a := kb.1) (b := kb.2) hkb).1
+  split at hsome
+  · simp only [Option.some.injEq] at hsome
+    rw [← hsome]
+    exact (mem_allKeys shape kb.1).mp hk
+  · simp at hsome
+
+/-- **boolean-mask assignment**, the whole grammar (mask of the array's shape, rank ≥ 1; scalar,
+one value per True position, or a one-element value): the model agrees with NumPy. -/
+theorem setMask_refines [DecidableEq α] (d : DOK α) (m : List Bool) (v : Val α) (hc : Canon d)
+    (hwf : WFOp d.shape (.mask m v) = true) :
+    Agrees d (setMask d m v) (dSetMask d.shape (get d) m v) := by
+  simp only [WFOp, valueFits, Bool.and_eq_true, beq_iff_eq, Bool.not_eq_true', List.isEmpty_eq_false_iff] at hwf
+  obtain ⟨hfits, ⟨hne, hlen⟩, hflat⟩ := hwf
+  obtain ⟨xs, hlv⟩ : ∃ xs, listVals v (maskSel d.shape m).length = .ok xs := by
+    cases h : listVals v (maskSel d.shape m).length with
+    | error e => rw [h] at hfits; simp [Except.toBool] at hfits
+    | ok xs => exact ⟨xs, rfl⟩
+  have hsel : maskSel d.shape m = maskKeys d.shape m := rfl
+  have hlen' : ¬ m.length ≠ prod d.shape := fun h => h hlen
+  simp only [setMask, hne, hlen', if_false, dSetMask, hlv]
+  rw [hsel] at hlv ⊢
+  exact fancyStore_refines d _ v xs hc (fancyVals_of_listVals hflat hlv) (fun k hk => mem_maskKeys hk)
 
 /-! ### element reads -/
 
@@ -338,17 +482,7 @@ theorem getInt_spec (d : DOK α) (key : List Int) (h : key.length = d.shape.leng
     rw [← hmap]
     rfl
 
-/-! ### the refinement relation and the hypotheses of the property theorems -/
-
-/-- **Agrees.**  The outcome of an assignment in the model (`r` = array afterwards and exception, if
-any) agrees with NumPy's outcome `s` on the dense array of the state `d` before it: if NumPy
-accepts, the model raises nothing, every index tuple reads NumPy's value, the state is canonical
-(distinct in-range keys, no stored fill value) and shape and fill value are unchanged; if NumPy
-raises, the model raises an error of the same class and the array is unchanged. -/
-def Agrees (d : DOK α) (r : DOK α × Option Err) (s : Except Err (Dense α)) : Prop :=
-  match s with
-  | .ok a' => r.2 = none ∧ (∀ k, get r.1 k = a' k) ∧ Canon r.1 ∧ r.1.shape = d.shape ∧ r.1.fill = d.fill
-  | .error e => r = (d, some e)
+/-! ### hypotheses of the property theorems -/
 
 /-- the bounds function visits, on every slice of the key, exactly the indices Python's
 `range(*slice(start, stop, step).indices(dim))` lists (and its step is not 0) -/
@@ -390,135 +524,13 @@ def WFSet (shape : List Nat) (key : List KeyPart) (v : Val α) : Prop :=
   key.all stepNonzero = true ∧
   ∀ sels, pySels (padKey key shape.length) shape = .ok sels → Broadcastable v (gridShape sels) = true
 
-/-- a decidable consequence of `Agrees` at one index tuple, for concrete witnesses -/
-def agreesAt (k : DKey) (r : DOK Int × Option Err) (s : Except Err (Dense Int)) : Bool :=
-  match s with
-  | .ok a' => r.2.isNone && decide (get r.1 k = a' k)
-  | .error e => decide (r.2 = some e)
-
-theorem agreesAt_of_agrees {d : DOK Int} {r : DOK Int × Option Err} {s : Except Err (Dense Int)}
-    (h : Agrees d r s) (k : DKey) : agreesAt k r s = true := by
-  unfold Agrees at h
-  unfold agreesAt
-  cases s with
-  | ok a' => simp [h.1, h.2.1 k]
-  | error e => simp [h]
-
-theorem wfSet_of_wfOp {shape : List Nat} {bare : Bool} {key : List KeyPart} {v : Val α}
-    (h : WFOp shape (.set bare key v) = true) : WFSet shape key v := by
+theorem wfSet_of_wfOp {shape : List Nat} {key : List KeyPart} {v : Val α}
+    (h : WFOp shape (.set key v) = true) : WFSet shape key v := by
   simp only [WFOp, valueFits, Bool.and_eq_true, beq_iff_eq] at h
   refine ⟨h.2.1, fun sels hs => ?_⟩
   have := h.1
   rw [hs] at this
   exact this
-
-theorem allInts_singleton {key : List KeyPart} {i : Int} (h : allInts key = some [i]) : key = [.int i] := by
-  cases key with
-  | nil => simp [allInts] at h
-  | cons p ps =>
-    cases p with
-    | slice a b c => simp [allInts] at h
-    | int n =>
-      simp only [allInts] at h
-      cases hps : allInts ps with
-      | none => simp [hps] at h
-      | some l =>
-        simp only [hps, Option.map_some, Option.some.injEq, List.cons.injEq] at h
-        obtain ⟨h1, h2⟩ := h
-        subst h1 h2
-        cases ps with
-        | nil => rfl
-        | cons q qs =>
-          cases q with
-          | slice a b c => simp [allInts] at hps
-          | int m =>
-            simp only [allInts] at hps
-            cases allInts qs <;> simp at hps
-
-/-- the "1D fancy indexing" route of `__setitem__` with one in-range integer: the index-list path
-stores exactly that element, which is what NumPy's `a[i,] = x` does -/
-theorem tupleRoute_refines [DecidableEq α] (d : DOK α) (bare : Bool) (key : List KeyPart) (v : Val α)
-    (ints : List Int) (hc : Canon d) (hws : WFSet d.shape key v)
-    (hroute : tupleRoute d.shape bare key = some ints) (htup : Excluded_tupleRoute d.shape bare key = false) :
-    Agrees d (setFancy d [ints] v) (dSetitem d.shape (get d) key v) := by
-  -- the 1-d tuple route, one in-range integer: the index-list path stores exactly that element
-  simp only [Excluded_tupleRoute, hroute, Bool.not_eq_false', Bool.and_eq_true, beq_iff_eq] at htup
-  obtain ⟨hlen1, hrange⟩ := htup
-  obtain ⟨i, rfl⟩ : ∃ i, ints = [i] := by
-    cases ints with
-    | nil => simp at hlen1
-    | cons i t => cases t with
-      | nil => exact ⟨i, rfl⟩
-      | cons _ _ => simp at hlen1
-  simp only [tupleRoute] at hroute
-  split at hroute
-  · rename_i hsh
-    have hkey : key = [.int i] := allInts_singleton hroute
-    subst hkey
-    obtain ⟨d0, hd0⟩ : ∃ d0, d.shape = [d0] := by
-      cases hs : d.shape with
-      | nil => rw [hs] at hsh; simp at hsh
-      | cons d0 t => cases t with
-        | nil => exact ⟨d0, rfl⟩
-        | cons _ _ => rw [hs] at hsh; simp at hsh
-    rw [hd0] at hrange
-    simp only [entriesInRange, List.all_cons, List.all_nil, Bool.and_true, Bool.and_eq_true,
-      decide_eq_true_eq] at hrange
-    have hsel : pySels (padKey [.int i] d.shape.length) d.shape = .ok [.int i] := by
-      have h1 : -(d0 : Int) ≤ i ∧ i < d0 := by omega
-      have h2 : ¬ i < 0 := by omega
-      simp [hd0, padKey, pySels, pySel, h1, h2]
-    have hbc := hws.2 _ hsel
-    obtain ⟨hfl, hle, _⟩ := Broadcastable_spec hbc
-    have hvs : v.shape = [] := List.eq_nil_of_length_eq_zero (by simpa [gridShape] using hle)
-    have hwf' : WFOp d.shape (.fancy [[i]] v) = true := by
-      rw [hvs] at hfl
-      simp only [prod] at hfl
-      cases hf : v.flat with
-      | nil => rw [hf] at hfl; simp at hfl
-      | cons x t =>
-        have ht : t = [] := by rw [hf] at hfl; simpa using hfl
-        subst ht
-        simp [WFOp, valueFits, listVals, hvs, hf, hd0, prod, Except.toBool]
-    have hex' : Excluded d.shape (.fancy [[i]] v) = false := by
-      simp [Excluded, Excluded_fancyRawIndex, Excluded_fancyEmpty, Excluded_fancyBcast1, hd0, entriesInRange,
-        hrange.1, hrange.2, hvs]
-    obtain ⟨a', hs, h1, h2, h3, h4, h5⟩ := setFancy_refines d [[i]] v hc hwf' hex'
-    -- the two dense meanings coincide
-    have hdense : dSetitem d.shape (get d) [.int i] v = .ok a' := by
-      have hlen : ¬ ([KeyPart.int i].length > d.shape.length) := by simp [hd0]
-      simp only [dSetitem, hlen, if_false, hsel, hbc, if_true]
-      congr 1
-      rw [hvs] at hfl
-      simp only [prod] at hfl
-      cases hf : v.flat with
-      | nil => rw [hf] at hfl; simp at hfl
-      | cons x t =>
-        have ht : t = [] := by rw [hf] at hfl; simpa using hfl
-        subst ht
-        have hn : normKeys d.shape (zipKeys [[i]] 1) = some [[i]] := by
-          simp [hd0, zipKeys, normKeys, normKey, normIdx_of_inRange hrange.1 hrange.2]
-        simp only [dSetFancy, List.headD_cons, List.length_cons, List.length_nil, hn, listVals, hvs, hf,
-          Except.ok.injEq] at hs
-        rw [← hs]
-        funext k
-        simp only [dSetSel, assignAll, List.replicate, List.zip_cons_cons, List.zip_nil_right]
-        cases k with
-        | nil => simp [posOf]
-        | cons j js =>
-          cases js with
-          | cons j2 js2 =>
-            have : ¬ (j :: j2 :: js2 : DKey) = [i] := by simp
-            simp [posOf, this]
-          | nil =>
-            by_cases hij : i = j
-            · subst hij
-              simp [posOf, bcastGet, hvs, hf, ravel]
-            · have : ¬ ([j] : DKey) = [i] := by simp; exact fun h => hij h.symm
-              simp [posOf, hij, this]
-    rw [hdense]
-    exact ⟨h1, h2, h3, h4, h5⟩
-  · simp at hroute
 
 /-- `dRun` only looks at the values of the dense array -/
 theorem dRun_congr (shape : List Nat) (a b : Dense α) (h : ∀ k, a k = b k) (ops : List (Op α)) :
